@@ -363,4 +363,59 @@ C10_eng(H) ==
     /\ ((\E i \in DOMAIN H.sent : H.sent[i].fail) \/ (\E i \in DOMAIN H.got : H.got[i].err = "fatal")) => (~H.out.ok /\ H.out.err.engfatal)
     /\ EngFatal(H) => ~H.out.ok
     /\ H.out.goroutines = 0 /\ H.out.panic = ""
+
+(***************************************************************************)
+(* Request level (traceroute.RunTraceroute / HTTP handler): several wire   *)
+(* runs share one history; a wire run is identified by the index of its    *)
+(* sink (order of creation).                                               *)
+(***************************************************************************)
+WireRuns(H) == {H.sent[i].run : i \in DOMAIN H.sent}
+FatalOps == {"newsink", "newsource", "setfilter", "setdeadline", "read", "write"}
+FiredFailing(H) == {i \in DOMAIN H.flt : H.flt[i].op \in FatalOps /\ H.flt[i].class \in {"fatal", "zero"}}
+CauseName(f) == f.op \o "@" \o ToString(f.run)
+HasCause(out, c) == \E k \in DOMAIN out.err.causes : out.err.causes[k] = c
+
+\* the driver-level parameters of wire run w, reconstructed from its first probe
+RunVariant(H, p) ==
+    CASE p.kind = "echo_req" -> IF p.v = 6 THEN "icmp6" ELSE "icmp4"
+      [] p.kind = "udp" -> IF p.v = 6 THEN "udp6" ELSE "udp4"
+      [] p.kind = "tcp" /\ p.flags = SYN -> IF H.par.paris THEN "tcp_paris" ELSE "tcp"
+      [] OTHER -> "sack"
+RunPar(H, w) ==
+    LET s == SentOfRun(H, w)  p == s[1].p  v == RunVariant(H, p) IN
+    [variant |-> v, strict |-> (v # "sack"), min |-> s[1].ttl, max |-> H.par.max, timeout_us |-> H.par.timeout_us,
+     delay_us |-> IF v = "sack" THEN 10000 ELSE H.par.delay_us, poll_us |-> 100000, target |-> p.dst, port |-> p.dport,
+     entry |-> "proto", cancel_us |-> 0, paris |-> H.par.paris]
+HRun(H, w) == [H EXCEPT !.par = RunPar(H, w)]
+IsE2E(H, w) == H.par.min < H.par.max /\ SentOfRun(H, w)[1].ttl = H.par.max
+
+\* C15: all-or-error with exact counts
+C15_run(H) ==
+    LET ff == FiredFailing(H) IN
+    /\ H.out.panic = ""
+    /\ H.out.ok => (Len(H.out.runs) = H.par.queries /\ Len(H.out.rtts_us) = H.par.e2e /\ ff = {})
+    /\ ff # {} => /\ ~H.out.ok /\ ~H.out.has_result
+                  /\ \A i \in ff : H.flt[i].class = "fatal" => HasCause(H.out, CauseName(H.flt[i]))
+    /\ ff = {} => H.out.ok                       \* in particular a failing public-IP lookup never fails the request
+    /\ H.out.ok => (H.out.pub = IF H.par.public_ip /\ H.par.pub_mode = "ok" THEN "203.0.113.77" ELSE "")
+
+\* C19: parameters honoured exactly or rejected (expect = the meaning assigned by GenRun!Expect)
+C19_run(H) ==
+    LET ex == H.par.expect IN
+    /\ H.out.panic = ""
+    /\ ex.reject => ~H.out.ok
+    /\ H.out.ok =>
+         /\ WireRuns(H) # {}
+         /\ \A w \in WireRuns(H) :
+              LET s == SentOfRun(H, w) IN
+              /\ {s[j].ttl : j \in DOMAIN s} = ex.min..ex.max
+              /\ Len(s) = ex.max - ex.min + 1
+              /\ \A j \in DOMAIN s :
+                    /\ s[j].p.dst = ex.addr
+                    /\ (ex.kind # "echo_req" => s[j].p.dport = ex.port)
+                    /\ CASE ex.kind = "echo_req" -> s[j].p.kind = "echo_req"
+                         [] ex.kind = "udp" -> s[j].p.kind = "udp"
+                         [] ex.kind = "syn" -> s[j].p.kind = "tcp" /\ s[j].p.flags = SYN
+                         [] ex.kind = "sack" -> s[j].p.kind = "tcp" /\ HasFlag(s[j].p, ACK) /\ ~HasFlag(s[j].p, SYN)
+                         [] OTHER -> FALSE
 =============================================================================
